@@ -60,6 +60,8 @@ def _replay(name, law, other=None):
                       "A, B = np.array(X), np.array(Y); r = N.compute(A, B)\n"
                       "col, row = np.array([[X[0]], [X[1]]]), np.array([Y]); r2 = N.compute(col, row)\n"
                       "MA = np.array([[X[0], X[0], X[1]], [X[1], X[0], X[1]]]).T; MB = np.array([[Y[0], Y[1], Y[1]], [Y[0], Y[0], Y[1]]]).T; rT = N.compute(MA, MB)\n"
+                      "for P, Q in ((np.array([X[0]]), np.array([Y[0]])), (np.array([[X[0]], [X[1]]]), np.array([[Y[0]], [Y[1]]])), (np.array([[X[0], X[1]]]), np.array([[Y[0], Y[1]]])), (np.array([[X[0]]]), np.array([Y[0]]))):\n"
+                      "    if np.shape(N.compute(P, Q)) != np.broadcast_shapes(P.shape, Q.shape): verdict(True, 'shape %r for operands %r %r' % (np.shape(N.compute(P, Q)), P.shape, Q.shape))\n"
                       "bad = not (same(rT, np.vectorize(f)(MA, MB), tol) and same(r, [f(p, q) for p, q in zip(X, Y)], tol) and same(r2, [[f(p, q) for q in Y] for p in X[:2]], tol)"
                       " and same(A, X) and same(B, Y) and same(col, [[X[0]], [X[1]]]) and same(row, [Y]))",
             "dual": f"M = fl.{other}(); bad = not same(float(M.compute(a,b)), 1 - f(1-a,1-b), tol)" if other else "bad = False",
@@ -137,7 +139,10 @@ def _ob_law(name, law, is_t, tier):
                 MB = [[ys[0], ys[1], ys[1]], [ys[0], ys[0], ys[1]]]
                 rT = N.compute(sym_array(MA).T, sym_array(MB).T)
                 eT = [N.compute(MA[i][j], MB[i][j]) for j in range(3) for i in range(2)]
-                return r1, el1, r2, el2, xs, ys, (A, B, col, row), rT, eT
+                # operands with one element or with axes of length one: the result has the broadcast shape
+                sing = [(N.compute(sym_array(p), sym_array(q)), np.broadcast_shapes(np.shape(np.array(p, dtype=object)), np.shape(np.array(q, dtype=object))))
+                        for p, q in (([xs[0]], [ys[0]]), ([[xs[0]], [xs[1]]], [[ys[0]], [ys[1]]]), ([[xs[0], xs[1]]], [[ys[0], ys[1]]]), ([[xs[0]]], [ys[0]]))]
+                return r1, el1, r2, el2, xs, ys, (A, B, col, row), rT, eT, sing
             raise AssertionError(law)
 
         for p in ob.paths(pre, body):
@@ -200,13 +205,17 @@ def _ob_law(name, law, is_t, tier):
                 ob.prove(pre, p, z3.And(is_val(e3[0], f(a.v, c.v)), is_val(e3[1], f(b.v, a2.v)), is_val(e4[0], f(a.v, c.v)), is_val(e4[1], f(b.v, a2.v))),
                          f"{name}/kinds/sequences", ins3, rp)
             elif law == "arrays":
-                r1, el1, r2, el2, xs, ys, (A, B, col, row), rT, eT = r
+                r1, el1, r2, el2, xs, ys, (A, B, col, row), rT, eT, sing = r
                 pre2 = [unit(v) for v in xs + ys]
                 n = len(xs)
                 ins2 = {f"x{i}": x for i, x in enumerate(xs)}
                 ins2.update({f"y{i}": y for i, y in enumerate(ys)})
                 if kind_of(r1) != ("array", (n,)) or kind_of(r2) != ("array", (2, n)):
                     ob.prove(pre2, p, False, f"{name}/arrays/shape {kind_of(r1)} {kind_of(r2)}", ins2, rp)
+                    continue
+                wrong = [(kind_of(a), shp) for a, shp in sing if kind_of(a) != ("array", shp)]
+                if wrong:
+                    ob.prove(pre2, p, False, f"{name}/arrays/singleton-shape {wrong[0]}", ins2, rp)
                     continue
                 if kind_of(rT) != ("array", (3, 2)):
                     ob.prove(pre2, p, False, f"{name}/arrays/transposed-shape {kind_of(rT)}", ins2, rp)
